@@ -996,6 +996,9 @@ def clause_plateau_scan(ctx):
                           f"'{k}' stores the wrong scan array")
     ra = [s for s in br.body if isinstance(s, ast.Assign)
           and norm(s.targets[0]) == "self.range_x"]
+    br_fn_ = br
+    while not isinstance(br_fn_, ast.FunctionDef):
+        br_fn_ = br_fn_._parent
     dvar = None
     for s in br.body:
         if isinstance(s, ast.Assign) and isinstance(s.value, ast.Call) and \
@@ -1007,8 +1010,8 @@ def clause_plateau_scan(ctx):
                       "wrong order")
     ok = bool(ra) and isinstance(ra[-1].value, (ast.List, ast.Tuple)) and \
         norm(ra[-1].value.elts[0]) == dvar and \
-        norm(ra[-1].value.elts[1]) in ("np.max(self.fp['range_x'])",
-                                       "max(self.fp['range_x'])")
+        Resolver(br_fn_).text(ra[-1].value.elts[1]) in (
+            "np.max(self.fp['range_x'])", "max(self.fp['range_x'])")
     ctx.check(ok, br, "final fit uses [optimal depth, max(range_x)]",
               "the final fit of the plateau search does not use the "
               "reported optimal indentation as lower bound")
@@ -1314,10 +1317,10 @@ def clause_residual_shape(ctx):
             ctx.fail(a, f"weights = {norm(w)}",
                      "weights are not compute_contact_point_weights(...)")
             continue
-        got = {kw.arg: norm(kw.value) for kw in wcall.keywords}
+        got = {kw.arg: R.text(kw.value) for kw in wcall.keywords}
         for i, nm in enumerate(("cp", "delta", "weight_dist")):
             if i < len(wcall.args):
-                got[nm] = norm(wcall.args[i])
+                got[nm] = R.text(wcall.args[i])
         want = {"cp": "params['contact_point'].value", "delta": "delta",
                 "weight_dist": "weight_cp"}
         for k, v in want.items():
@@ -1359,9 +1362,10 @@ def clause_residual_shape(ctx):
     xv = rets[0].value.id
     d0 = [s for s in walk_no_nested(wf, False) if isinstance(s, ast.Assign)
           and norm(s.targets[0]) == xv]
-    ok = len(d0) == 1 and norm(d0[0].value) in ("np.abs(delta - cp)",
-                                                "np.abs(cp - delta)",
-                                                "abs(delta - cp)")
+    ok = len(d0) == 1 and R2.text(d0[0].value).replace(
+        "np.absolute", "np.abs") in ("np.abs(delta - cp)",
+                                     "np.abs(cp - delta)",
+                                     "abs(delta - cp)", "abs(cp - delta)")
     ctx.check(ok, wf, "weights start from |delta - cp| (fresh array)",
               "weights are not proportional to the distance from the contact "
               "point (or are computed in place on the caller's array)")
@@ -1374,8 +1378,9 @@ def clause_residual_shape(ctx):
     clip = [s for s in walk_no_nested(wf, False) if isinstance(s, ast.Assign)
             and isinstance(s.targets[0], ast.Subscript)
             and norm(s.targets[0].value) == xv]
-    ok = len(clip) == 1 and norm(clip[0].targets[0].slice) in (
-        f"{xv} > 1", f"{xv} >= 1") and norm(clip[0].value) == "1"
+    ok = len(clip) == 1 and R2.text(clip[0].targets[0].slice) in (
+        f"{xv} > 1", f"{xv} >= 1", f"1 < {xv}", f"1 <= {xv}") and \
+        norm(clip[0].value) in ("1", "1.0")
     ctx.check(ok, wf, "weights clipped to 1 beyond the weighting distance",
               "weights are not clipped to 1 beyond the weighting distance")
 
@@ -1472,7 +1477,7 @@ def clause_upper_bound_agreement(ctx, who="hash"):
           and len(s.value.elts) == 2]
     if not ra:
         raise Undecided("final range of the plateau search not found")
-    used = norm(ra[-1].value.elts[1])
+    used = L.r(ra[-1].value.elts[1])
 
     def kind(text):
         t = text.replace(" ", "")
